@@ -91,6 +91,7 @@ func (p *Program) VerifyFunc(c *Contract) (res *FuncResult) {
 	if c.Options["nlmul"] == "uf" {
 		NLMulUF = true
 		NLMulComm = nil
+		NLMulExact = nil
 		nlSeen = map[string]bool{}
 		ex.Funs["0uf_umul"] = "(declare-fun umul (Int Int) Int)"
 		defer func() { NLMulUF = false }()
@@ -171,7 +172,7 @@ func (p *Program) VerifyFunc(c *Contract) (res *FuncResult) {
 		switch v := vars[nm].(type) {
 		case SliceV:
 			if v.Region != nil {
-				small = append(small, ex.le(v.Len, ex.idxConst(40)))
+				small = append(small, ex.le(v.Len, ex.idxConst(68)))
 			}
 		case Scalar:
 			if v.T.S.K == SBV && v.T.S.W == 64 {
@@ -222,6 +223,9 @@ func (p *Program) VerifyFunc(c *Contract) (res *FuncResult) {
 		}
 		o := &Obligation{Func: c.Key, Short: name, Name: c.Key + "#" + name, Tags: tags, Expect: expect, Query: q,
 			Mode: c.Mode, Inputs: ex.Inputs, Clause: clause, Bounded: c.Bounded, Contract: c, Refine: ex.Refine, Small: small}
+		if NLMulUF {
+			o.Refine = append(append([]*Term{}, ex.Refine...), NLMulExact...)
+		}
 		if o.Mode == "" {
 			o.Mode = "int"
 		}
